@@ -45,7 +45,7 @@ type Module struct {
 	// Funcs lists every source-level function of the module (declared
 	// functions, methods, closures and package initialisers), sorted by
 	// position, synthetic wrappers excluded.
-	Funcs []*ssa.Function
+	Funcs  []*ssa.Function
 	NInstr int
 
 	seamCache map[*ssa.Global]*ssa.Function
@@ -306,7 +306,6 @@ func (m *Module) fieldOf(rel, typ, name string) *types.Var {
 	}
 	return nil
 }
-
 
 // ---- anchors by role ----
 //
